@@ -376,16 +376,15 @@ def number (dedup : Option (List Nat)) (base now : Nat) : List InMsg → Nat →
 inductive Err | segmentNotFound | segmentClosed | invalidOffset | offsetNotFound
 deriving Repr, DecidableEq
 
-/-- partitions/messages.rs: append_messages. `batchSize` is what System::append_messages computed
-(Σ over *all* given messages, + 21 each); `now` the clock. -/
+/-- partitions/messages.rs: append_messages. `now` the clock. -/
 def Part.append (cfg : Cfg) (p : Part) (now : Nat) (msgs : List InMsg) : Except Err Part :=
   match p.segs.getLast? with
   | none => .error .segmentNotFound
   | some last =>
     let p := if last.closed then p.addSegment cfg (last.endOff + 1) now else p
-    let batchSize := (msgs.map (·.size)).sum
     let base := if p.shouldInc then p.cur + 1 else 0
     let (dedup, retained) := number p.dedup base now msgs 0 []
+    let batchSize := sumSizes retained          -- dropped duplicates take no space (fix 289246a)
     if retained.isEmpty then .ok { p with dedup := dedup }
     else
       let n := retained.length
@@ -501,11 +500,18 @@ def Part.load (cfg : Cfg) (expiry : Option Nat) (now : Nat) (files : List SegFil
     | some l => if l.closed then updLast segs (fun s => { s with endOff := s.cur }) else segs
     | none => segs
   let shouldInc := segs.any (fun s => s.sizeBytes > 0)
+  -- an empty last segment that does not start at 0: the last accepted offset is start - 1 (fix fd7c180)
+  let lastEmpty := match segs.getLast? with
+    | some l => decide (l.sizeBytes = 0 ∧ 0 < l.start)
+    | none => false
+  let shouldInc := shouldInc || lastEmpty
   let ids := (batchesMsgs (files.map (·.log)).flatten).map (·.id)
   let all := batchesMsgs (files.map (·.log)).flatten
   let cnt : Counters :=
     { segs := segs.length, size := (segs.map (·.sizeBytes)).sum, msgs := (segs.map Seg.msgCount).sum }
-  { segs := segs, cur := (segs.getLast?.map (·.cur)).getD 0, shouldInc := shouldInc, unsaved := 0
+  { segs := segs
+    cur := (segs.getLast?.map (fun l => if lastEmpty then l.start - 1 else l.cur)).getD 0
+    shouldInc := shouldInc, unsaved := 0
     cache := if cfg.cacheOn then some (all.drop (all.length - cacheLen)) else none
     dedup := if cfg.dedupOn then some ids.eraseDups else none
     consOffs := consOffs, grpOffs := grpOffs, expiry := expiry, cnt := cnt }
